@@ -29,5 +29,6 @@ ArgvOK == \A max \in 0..3 : LET r == ArgvSplit(s, max) IN
 PathOK == LET nx == PathNext(s) IN
           /\ (nx.off # -1 => nx.len >= 1 /\ s[nx.off + 1] # Slash)
           /\ CompareNode(s, s) = 0
-          /\ (0 \notin {s[i] : i \in 1..Len(s)} => RemovePrefix(s, s) \in {Len(s), -2})
+          /\ RemovePrefix(s, s) = Len(s)                         \* a path is a prefix of itself
+          /\ RemovePrefix(s, <<>>) \in 0..Len(s)
 =============================================================================
